@@ -30,6 +30,8 @@ TEXT = {
          "Transparency (bitwise parameters, value) after every update through all six entry points; derivatives vs analytic ones within rounding/truncation bounds by stencil class; convergence order by halving the step; delegation for non-selected variables. Exploration."),
  "C13": ("generated HMMs (states 1..5, dense and sparse rows, emissions down to 1e-200, every break-point subset, every chunk size) vs path enumeration and a log-space long-double forward algorithm on dual numbers; stateful query/update histories vs fresh objects",
          "The three likelihood algorithms are compared with each other, with the sum over all hidden paths (L <= 12) and with an independent log-space forward/backward in long double (exact derivatives by second-order dual numbers); posteriors, per-site likelihoods, first and second derivatives; after every operation of a generated history every answer must equal that of a fresh object (bitwise); built-in transition models for row-stochasticity and stationarity in every query order (exhaustive order enumeration). Exploration."),
+ "C14": ("stateful model-based testing against a reference multigraph + observer model; iterative-deepening enumeration of all operation sequences (<= 4 nodes) de-duplicated on the full model state",
+         "Every call is classified by the model as well-formed (must return and is applied), ill-formed (must raise and change nothing) or free (views must agree); after every operation all graph views, the six iterator kinds, absent-id probes, id freshness and the association maps (mutual inverses, dead objects forgotten in every map, end points and linking edges, copy independence) are compared with the model. Random histories <= 40 ops over <= 8 nodes; exhaustive sequences of length <= 2/3 (all 29 op kinds) and <= 3/4 (graph ops) over <= 4 nodes from six start configurations. Exploration; exhaustive up to the stated depths."),
  "C15": ("bounded-exhaustive enumeration of all labelled rooted trees up to 6 (quick) / 7 (thorough) nodes and all small DAGs + stateful generated edit histories vs a by-definition reference",
          "Every rooted labelled tree (Pruefer sequence x root) with all roots, all node pairs and node sets is compared with a reference tree for validity, father/sons/branches/leaves-under/subtree/paths/MRCA, re-rooting (edge ids and attached objects kept) and un-rooting; all forward-edge DAGs on <= 5 nodes plus cyclic variants; edit histories with validity asked or not asked between edits. Exploration; exhaustive up to the stated node counts."),
  "C16": ("coverage-guided fuzzing (libFuzzer, ASan+UBSan) of 14 entry-point groups with structure-aware decoding, dictionary, seeds and in-target semantic oracles",
